@@ -22,6 +22,17 @@ Definition transfer (alias : bool) (src dst : Z) (h : heap) : heap * Z :=
 Definition apply_writes (ws : list (Z * Z)) (h : heap) : heap :=
   fold_left (fun h p => hwrite (fst p) (snd p) h) ws h.
 
+(* SendMsg(src) meeting RecvMsg(dst), in time.  The channel operation completes and SendMsg returns
+   BEFORE the receiver merges what it was handed into [dst]; in between the sender runs on and may
+   write anything ([between]: a handler that reuses one message for every Send, a client that edits
+   its request).  [snap] = true is the code now: SendMsg hands over a private copy [tmp] made before
+   the channel operation (snapshot / proto.Clone), which nobody but the receiver's RecvMsg ever
+   sees; [snap] = false is the code before: the sender's own object crosses. *)
+Definition send_recv (snap : bool) (src tmp dst : Z) (between : list (Z * Z)) (h : heap) : heap :=
+  if snap
+  then merge dst tmp (apply_writes between (merge tmp src h))
+  else merge dst src (apply_writes between h).
+
 (* ---- metadata handed to SetHeader / SendHeader / SetTrailer ---- *)
 (* The handler's metadata.MD maps live in a heap too; the stream keeps, for its header and for its
    trailer, either a map of its own (metadata.Join allocates and copies the value slices) or, in the
@@ -45,3 +56,6 @@ Definition md_set (alias : bool) (cur : option mstore) (a : Z) (h : mheap) : mst
   | None => if alias then MRef a else MVal (mread a h)
   | Some t => MVal (mget t h ++ mread a h)
   end.
+
+(* startStream: cloneMD of the client's outgoing metadata map at [a] becomes the incoming metadata *)
+Definition clone_md (a : Z) (h : mheap) : mstore := MVal (mread a h).
